@@ -527,3 +527,23 @@ package data
 //@   requires forall(j1, 0, iprod(other.shape, other.rank), forall(j2, 0, iprod(other.shape, other.rank), implies(j1 != j2, nd.Start + sladdr(other.shape, nd.OffsetStep, nilints, 1, j1, other.rank, other.rank) != nd.Start + sladdr(other.shape, nd.OffsetStep, nilints, 1, j2, other.rank, other.rank))))
 //@   assigns nd.Impl[*]
 //@   ensures [C01.copyfrom-footprint,C02.copyfrom-footprint] forall(j, 0, iprod(other.shape, other.rank), nd.Impl[old(nd.Start) + sladdr(other.shape, nd.OffsetStep, nilints, 1, j, other.rank, other.rank)] == other.at(j))
+
+// ---- Reshape: the same elements in the same row-major order under new extents (C02) ----
+//@ func (*nd{t}).Reshape(nd, newShape) returns (r, err)
+//@   safety C02
+//@   simplify entry-ids
+//@   chain ensures
+//@   uses C02.lemma-iprod-positive
+//@   atexit instantiate C02.lemma-contig-addresses(newShape, as(r, nd{t}).OffsetStep, len(newShape), 0)
+//@   requires len(newShape) >= 1 && forall(k, 0, len(newShape), newShape[k] >= 1)
+//@   requires len(nd.Dims) >= 1 && len(nd.OffsetStep) == len(nd.Dims) && len(nd.OriginalDims) == len(nd.Dims) && len(nd.Step) == len(nd.Dims) && len(nd.Offset) == len(nd.Dims)
+//@   requires forall(k, 0, len(nd.Dims), nd.OffsetStep[k] == nd.Offset[k]*nd.Step[k] && nd.Step[k] >= 1 && nd.Offset[k] == pfrom(nd.OriginalDims, k+1, len(nd.Dims)))
+//@   requires forall(k, 0, len(nd.Dims), nd.Dims[k] >= 1)
+//@   requires forall(j, 0, iprod(nd.Dims, len(nd.Dims)), 0 <= nd.Start + rmaddr(nd.Dims, nd.OffsetStep, j, len(nd.Dims), len(nd.Dims)) && nd.Start + rmaddr(nd.Dims, nd.OffsetStep, j, len(nd.Dims), len(nd.Dims)) < len(nd.Impl))
+//@   requires 0 <= nd.Start + rmaddr(nd.Dims, nd.OffsetStep, 0, len(nd.Dims), len(nd.Dims)) && nd.Start + rmaddr(nd.Dims, nd.OffsetStep, 0, len(nd.Dims), len(nd.Dims)) < len(nd.Impl) && 0 <= nd.Start + rmaddr(nd.Dims, nd.OffsetStep, iprod(nd.Dims, len(nd.Dims)) - 1, len(nd.Dims), len(nd.Dims)) && nd.Start + rmaddr(nd.Dims, nd.OffsetStep, iprod(nd.Dims, len(nd.Dims)) - 1, len(nd.Dims), len(nd.Dims)) < len(nd.Impl)
+//@   assigns nothing
+//@   dyntype r nd{t}
+//@   ensures [C02.reshape-size-check] iff(err.isnil, iprod(newShape, len(newShape)) == iprod(nd.Dims, len(nd.Dims)))
+//@   ensures [C02.reshape-aliases-iff-contiguous] implies(err.isnil && contigc(nd.Dims, nd.OriginalDims, nd.Step, nd.Offset, len(nd.Dims)), as(r, nd{t}).Impl.id == nd.Impl.id)
+//@   ensures [C02.reshape-header] implies(err.isnil, as(r, nd{t}).Dims == newShape && len(as(r, nd{t}).OffsetStep) >= 1)
+//@   ensures [C02.reshape-rowmajor] implies(err.isnil && iprod(newShape, len(newShape)) > 1, forall(j, 0, iprod(newShape, len(newShape)), as(r, nd{t}).Impl[as(r, nd{t}).Start + rmaddr(newShape, as(r, nd{t}).OffsetStep, j, len(newShape), len(newShape))] == nd.Impl[nd.Start + rmaddr(nd.Dims, nd.OffsetStep, j, len(nd.Dims), len(nd.Dims))]))
